@@ -1,35 +1,47 @@
 #!/usr/bin/env python3
 """Development-time mutation smoke test (DESIGN.md Appendix C).
-usage: mutant.py <name>|all    - applies mutants/<name>.json to /repo, runs the package tests and
-the named check (quick), reverts /repo. A mutant file: {"property","file","old","new","expect":"red"|"green","note"}"""
-import json, subprocess, sys, os, glob
+usage: mutant.py [-j N] <name>...|all
+Each mutant (mutants/<name>.json: {"property","file","old","new","expect":"red"|"green","entry"?,"note"}) is applied
+to a scratch worktree of /repo (never to /repo itself), the package tests are run there, and the named quick check is
+run with the engine pointed at the scratch tree (SYMGO_REPO) and its output redirected (SYMGO_OUT), so neither /repo nor
+the committed evidence is touched and mutants can be evaluated in parallel."""
+import json, subprocess, sys, os, glob, shutil
+from concurrent.futures import ThreadPoolExecutor
 ENV = dict(os.environ, GOFLAGS='-mod=mod', GOPROXY='off', GOSUMDB='off', GOTOOLCHAIN='local')
 def run(name):
     m = json.load(open(f'/verif/mutants/{name}.json'))
-    path = '/repo/' + m['file']
-    src = open(path).read()
-    if src.count(m['old']) != 1:
-        return name, 'SKIP(old text occurs %d times)' % src.count(m['old'])
-    ev = f"/verif/evidence/{m['property']}.json"
-    evsave = open(ev).read() if os.path.exists(ev) else None
+    w, o = f'/tmp/mu_{name}', f'/tmp/mu_{name}_out'
+    shutil.rmtree(w, ignore_errors=True); shutil.rmtree(o, ignore_errors=True)
+    subprocess.run(['git', '-C', '/repo', 'worktree', 'prune'])
+    if subprocess.run(['git', '-C', '/repo', 'worktree', 'add', '--detach', w, 'HEAD'], capture_output=True).returncode != 0:
+        return name, 'SKIP(cannot create worktree)'
     try:
+        path = w + '/' + m['file']
+        src = open(path).read()
+        if src.count(m['old']) != 1:
+            return name, 'SKIP(old text occurs %d times)' % src.count(m['old'])
         open(path, 'w').write(src.replace(m['old'], m['new']))
         pkg = './' + os.path.dirname(m['file']) if os.path.dirname(m['file']) else '.'
-        t = subprocess.run(['go', 'test', '-vet=off', '-count=1', pkg], cwd='/repo', env=ENV, capture_output=True, text=True)
+        t = subprocess.run(['go', 'test', '-vet=off', '-count=1', pkg], cwd=w, env=ENV, capture_output=True, text=True)
         tests = 'tests-pass' if t.returncode == 0 else 'TESTS-FAIL'
+        os.makedirs(o, exist_ok=True)
         args = ['/verif/check', m['property'], 'quick'] + ([m['entry']] if m.get('entry') else [])
-        c = subprocess.run(args, capture_output=True, text=True, timeout=1800)
+        c = subprocess.run(args, capture_output=True, text=True, timeout=3600, env=dict(ENV, SYMGO_REPO=w, SYMGO_OUT=o))
         verdict = {0: 'green', 1: 'red', 2: 'inconclusive'}.get(c.returncode, str(c.returncode))
         ok = 'OK ' if verdict == m.get('expect', 'red') else 'MISMATCH '
         detail = [l for l in c.stdout.splitlines() if l.startswith('  ->') or l.startswith('INCONCLUSIVE') or l.startswith('UNCONFIRMED')][:3]
         return name, f"{ok}{m['property']} {tests} check={verdict} expect={m.get('expect','red')} :: " + ' | '.join(d.strip()[:160] for d in detail)
     finally:
-        open(path, 'w').write(src)
-        if evsave is not None:
-            open(ev, 'w').write(evsave)  # evidence describes runs on the unchanged tree only
-names = sys.argv[1:]
+        subprocess.run(['git', '-C', '/repo', 'worktree', 'remove', '--force', w], capture_output=True)
+        shutil.rmtree(o, ignore_errors=True)
+args = sys.argv[1:]
+jobs = 1
+if args[:1] == ['-j']:
+    jobs = int(args[1]); args = args[2:]
+names = args
 if names == ['all']:
     names = sorted(os.path.basename(p)[:-5] for p in glob.glob('/verif/mutants/*.json'))
-for n in names:
-    print(*run(n), flush=True)
-subprocess.run(['git', '-C', '/repo', 'status', '--short'])
+with ThreadPoolExecutor(jobs) as ex:
+    for r in ex.map(run, names):
+        print(*r, flush=True)
+subprocess.run(['git', '-C', '/repo', 'worktree', 'prune'])
